@@ -72,6 +72,21 @@ func genC10(t *rapid.T) C10Case {
 		op.Off = rapid.SampledFrom([]int64{0, 0, 1, -1}).Draw(t, "off")
 		c.Ops = append(c.Ops, op)
 	}
+	switch rapid.IntRange(0, 9).Draw(t, "scenario") {
+	case 0:
+		// an escrow is built while the quirk token is honest, then it starts moving tokens the wrong way round
+		a := rapid.IntRange(0, 1).Draw(t, "sc-a")
+		c.Ops = append([]C10Op{{K: "convert-erc20", Pair: 6, A: a, B: a, Amt: "1000", Mode: "abs"}, {K: "arm", Pair: 6, A: a, Amt: "1", Mode: "abs", Off: 1},
+			{K: "convert-erc20", Pair: 6, A: rapid.IntRange(0, 1).Draw(t, "sc-a2"), B: a, Amt: rapid.SampledFrom([]string{"1", "7", "1000"}).Draw(t, "sc-amt"), Mode: "abs"}}, c.Ops...)
+	case 1:
+		// coins of the balance-manipulating pair obtained through the hook, then paid to the address that token favours
+		a := rapid.IntRange(0, 1).Draw(t, "sc-a")
+		c.Ops = append([]C10Op{{K: "hook", Pair: 3, A: a, B: a, Amt: rapid.SampledFrom([]string{"20", "1000"}).Draw(t, "sc-amt"), Mode: "abs"},
+			{K: "bank-send", Pair: 3, A: a, B: 1 - a, Amt: rapid.SampledFrom([]string{"4", "2", "7"}).Draw(t, "sc-amt2"), Mode: "abs", Off: 1}}, c.Ops...)
+	}
+	if len(c.Ops) > 14 {
+		c.Ops = c.Ops[:14]
+	}
 	return c
 }
 
@@ -81,7 +96,7 @@ var c10ArmSlot = common.HexToHash("0x8000000000000000000000000000000000000000000
 
 // c10QuirkRuntime: a token with truthful balanceOf (balance of x in storage slot x) that is honest until arm() is
 // called; armed in mode 1 transfer(to, n) moves 2n, in mode 2 it takes 2n from the sender and gives n to the
-// recipient; its Transfer event and return value still say n.
+// recipient; its Transfer event and return value still say n. In mode 5 transfer() moves nothing and returns false.
 func c10QuirkRuntime() []byte {
 	a := evmasm.New()
 	sel := func(hex string, label string) {
@@ -98,6 +113,8 @@ func c10QuirkRuntime() []byte {
 	sel("0x0a11ce02", "arm2")
 	sel("0x0a11ce03", "arm3")
 	sel("0x0a11ce04", "disarm")
+	sel("0x0a11ce06", "arm5")
+	sel("0x0a11ce07", "arm6")
 	sel("0xa9059cbb", "transfer")
 	a.Label("true")
 	a.Push(1).Push(0).Op(vm.MSTORE).Push(32).Push(0).Op(vm.RETURN)
@@ -113,7 +130,33 @@ func c10QuirkRuntime() []byte {
 	a.Label("disarm")
 	a.Push(0).PushBytes(c10ArmSlot.Bytes()).Op(vm.SSTORE)
 	a.Jump("true")
+	a.Label("arm5")
+	a.Push(5).PushBytes(c10ArmSlot.Bytes()).Op(vm.SSTORE)
+	a.Jump("true")
+	a.Label("arm6")
+	a.Push(6).PushBytes(c10ArmSlot.Bytes()).Op(vm.SSTORE)
+	a.Jump("true")
+	a.Label("false")
+	a.Push(0).Push(0).Op(vm.MSTORE).Push(32).Push(0).Op(vm.RETURN)
+	// mode 6: transfer(to, n) moves n the other way round, from `to` to the caller; event and return value as usual
+	a.Label("reverse")
+	a.Push(36).Op(vm.CALLDATALOAD)                                   // n
+	a.Op(vm.DUP1).Push(4).Op(vm.CALLDATALOAD, vm.SLOAD, vm.LT)       // bal[to] < n, n
+	a.Jumpi("fail")                                                  // n
+	a.Op(vm.DUP1).Push(4).Op(vm.CALLDATALOAD, vm.SLOAD, vm.SUB)      // bal[to]-n, n
+	a.Push(4).Op(vm.CALLDATALOAD, vm.SSTORE)                         // n
+	a.Op(vm.DUP1, vm.CALLER, vm.SLOAD, vm.ADD, vm.CALLER, vm.SSTORE) // n
+	a.Push(0).Op(vm.MSTORE)                                          //
+	a.Push(4).Op(vm.CALLDATALOAD).Op(vm.CALLER)                      // caller, to
+	a.PushBytes(common.FromHex("0xddf252ad1be2c89b69c2b068fc378daa952ba7f163c4a11628f55a4df523b3ef"))
+	a.Push(32).Push(0).Op(vm.LOG3)
+	a.Jump("true")
 	a.Label("transfer")
+	// mode 5: an old-style token that reports failure by returning false, without moving anything
+	a.Push(5).PushBytes(c10ArmSlot.Bytes()).Op(vm.SLOAD, vm.EQ)
+	a.Jumpi("false")
+	a.Push(6).PushBytes(c10ArmSlot.Bytes()).Op(vm.SLOAD, vm.EQ)
+	a.Jumpi("reverse")
 	// mode 0: debit n, credit n; mode 1: debit 2n, credit 2n; mode 2: debit 2n, credit n; mode 3: paused (reverts)
 	a.Push(3).PushBytes(c10ArmSlot.Bytes()).Op(vm.SLOAD, vm.EQ)
 	a.Jumpi("fail")
@@ -189,15 +232,16 @@ func c10FakeRuntime() []byte {
 }
 
 type c10Pair struct {
-	Denom    string
-	Token    common.Address
-	CoinOrig bool
-	Burned   *big.Int
-	Defunct  bool // the contract self-destructed
-	Unbacked bool // a hook-path transfer minted coins without a matching escrow increase (listed finding)
-	ArmMode  int  // over-transferring token: 0 honest, 1 moves 2n, 2 debits 2n and credits n
-	HookOK   bool // a hook-path transfer of this token succeeded
-	Drained  bool // the thief spent an allowance on the module's escrow that a hook-path transfer gave it
+	Denom       string
+	Token       common.Address
+	CoinOrig    bool
+	Burned      *big.Int
+	Defunct     bool   // the contract self-destructed
+	Unbacked    bool   // a hook-path transfer minted coins without a matching escrow increase (listed finding)
+	UnbackedKey string // the key under which that happened (names the token's behaviour at that moment)
+	ArmMode     int    // over-transferring token: 0 honest, 1 moves 2n, 2 debits 2n and credits n
+	HookOK      bool   // a hook-path transfer of this token succeeded
+	Drained     bool   // the thief spent an allowance on the module's escrow that a hook-path transfer gave it
 }
 
 func runC10(st *ev.Stats, c C10Case) string {
@@ -337,7 +381,7 @@ func runC10(st *ev.Stats, c C10Case) string {
 			} else if s.Sup.Cmp(s.ModTok) > 0 {
 				key := "peg:" + c10PairNames[i] + ":" + op.K
 				if p.Unbacked {
-					key = c10DeltaKey("hook", c10PairNames[i])
+					key = p.UnbackedKey
 				} else if p.Drained && p.HookOK {
 					// one root cause whatever op follows: the hook path accepted a transfer that carried an Approval
 					key = "hook-unchecked:allowance-drain:" + c10PairNames[i]
@@ -363,6 +407,7 @@ func runC10(st *ev.Stats, c C10Case) string {
 		var ok bool
 		var log string
 		isMessage := false
+		toThief := false
 		switch op.K {
 		case "destroy":
 			// the token contract takes a self-destruct path (applied directly to the state: the stock contracts have none)
@@ -417,7 +462,13 @@ func runC10(st *ev.Stats, c C10Case) string {
 				continue
 			}
 			isMessage = true
-			ok, log = cosmosAs(A, 3000000, banktypes.NewMsgSend(A.Addr, B.Addr, sdk.NewCoins(sdk.NewCoin(p.Denom, sdkmath.NewIntFromBigInt(amt)))))
+			if op.Off == 1 && op.Mode == "abs" {
+				// the payee is the address the stock malicious tokens favour
+				toThief = true
+				ok, log = cosmosAs(A, 12000000, banktypes.NewMsgSend(A.Addr, sdk.AccAddress(thief.Bytes()), sdk.NewCoins(sdk.NewCoin(p.Denom, sdkmath.NewIntFromBigInt(amt)))))
+				break
+			}
+			ok, log = cosmosAs(A, 12000000, banktypes.NewMsgSend(A.Addr, B.Addr, sdk.NewCoins(sdk.NewCoin(p.Denom, sdkmath.NewIntFromBigInt(amt)))))
 		case "hook-batch":
 			// one Ethereum transaction whose receipt carries two transfers to the module (a batch payer contract)
 			if op.Mode == "all" {
@@ -439,13 +490,16 @@ func runC10(st *ev.Stats, c C10Case) string {
 			if op.Pair != 6 {
 				continue
 			}
-			if op.B == 0 {
-				ok, log = ethAs(A, &p.Token, common.FromHex("0x0a11ce00"), 400000)
-			} else {
-				ok, log = ethAs(A, &p.Token, common.FromHex("0x0a11ce02"), 400000)
+			mode := 1 + op.B
+			if op.Off == -1 {
+				mode = 5
 			}
+			if op.Off == 1 {
+				mode = 6
+			}
+			ok, log = ethAs(A, &p.Token, common.FromHex(map[int]string{1: "0x0a11ce00", 2: "0x0a11ce02", 5: "0x0a11ce06", 6: "0x0a11ce07"}[mode]), 400000)
 			if ok {
-				p.ArmMode = 1 + op.B
+				p.ArmMode = mode
 				st.Class(fmt.Sprintf("over-transfer-armed:mode%d", p.ArmMode))
 			}
 		case "burn":
@@ -484,11 +538,19 @@ func runC10(st *ev.Stats, c C10Case) string {
 				}
 			}
 		}
-		_ = log
 		after := observe(p)
+		if os.Getenv("VERIF_DEBUG") != "" {
+			fmt.Printf("DEBUG C10 op %d %+v ok=%v log=%s\n   before %+v\n   after  %+v\n", i, op, ok, trunc(log), before, after)
+		}
 		name := c10PairNames[op.Pair]
 		if p.ArmMode == 2 {
 			name = "over-debiting"
+		}
+		if p.ArmMode == 5 {
+			name = "returns-false"
+		}
+		if p.ArmMode == 6 {
+			name = "reversing"
 		}
 		if p.Defunct {
 			// a pair whose contract is gone is unregistered on first use; nothing may be minted or released through it
@@ -537,7 +599,9 @@ func runC10(st *ev.Stats, c C10Case) string {
 					return msg
 				}
 				st.Class("known:" + c10DeltaKey(op.K, name))
-				p.Unbacked = p.Unbacked || op.K == "hook" || op.K == "hook-batch" || op.K == "approve" || op.K == "arm"
+				if !p.Unbacked && (op.K == "hook" || op.K == "hook-batch" || op.K == "approve" || op.K == "arm") {
+					p.Unbacked, p.UnbackedKey = true, c10DeltaKey(op.K, name)
+				}
 				continue
 			}
 		}
@@ -557,6 +621,17 @@ func runC10(st *ev.Stats, c C10Case) string {
 			debitOK := debit.Cmp(amt) == 0 || (!honestTok && op.K == "convert-erc20" && debit.Cmp(amt) > 0)
 			if !debitOK || credit.Cmp(amt) != 0 {
 				return fail("conversion-amount:"+op.K+":"+name, fmt.Sprintf("op %d %+v: debited %s, credited %s, requested %s", i, op, debit, credit, amt))
+			}
+		}
+		if ok && op.K == "bank-send" && !toThief {
+			// the payment arrives: the recipient's holdings of the pair (coins + tokens) grow by exactly the amount, and
+			// the sender's shrink by it (an adversarial token may take more from its own holder, never less)
+			hold := func(s snap, u int) *big.Int { return new(big.Int).Add(s.UserCoin[u], s.UserTok[u]) }
+			got := new(big.Int).Sub(hold(after, op.B), hold(before, op.B))
+			lost := new(big.Int).Sub(hold(before, op.A), hold(after, op.A))
+			honestTok := op.Pair == 0 || op.Pair == 1 || op.Pair == 5 || (op.Pair == 6 && p.ArmMode == 0)
+			if got.Cmp(amt) != 0 || lost.Cmp(amt) < 0 || (honestTok && lost.Cmp(amt) != 0) {
+				return fail("bank-send-amount:"+name, fmt.Sprintf("op %d %+v reported success: the recipient's holdings grew by %s and the sender's shrank by %s, the message says %s", i, op, got, lost, amt))
 			}
 		}
 		if msg := checkPeg(i, op); msg != "" {
